@@ -26,24 +26,24 @@ Print Assumptions C35_model_output_no_panic.
 (* C35_rules, as coded (events: (2,id,code) RST_STREAM, (4,last,code) GOAWAY, (5,0,0) close). *)
 (* even (or zero) stream id: connection error PROTOCOL_ERROR *)
 Theorem C35_rule_odd_ids : forall c id es kind clen,
-  (id mod 2 =? 1) = false -> step_headers c id es kind clen = goaway c 1.
+  (kind =? 7) = false -> (id mod 2 =? 1) = false -> step_headers c id es kind clen = goaway c 1.
 Proof. exact rule_even_id. Qed.
 Print Assumptions C35_rule_odd_ids.
 (* HEADERS for an id that is not an open stream and is not larger than every id seen: PROTOCOL_ERROR *)
 Theorem C35_rule_increasing_ids : forall c id es kind clen,
-  (id mod 2 =? 1) = true -> find_live id (c_streams c) = None -> id <= c_max c ->
+  (kind =? 7) = false -> (id mod 2 =? 1) = true -> find_live id (c_streams c) = None -> id <= c_max c ->
   step_headers c id es kind clen = goaway c 1.
 Proof. exact rule_ids_increase. Qed.
 Print Assumptions C35_rule_increasing_ids.
 (* a new stream beyond the advertised limit: the connection is closed (BFE's choice), no panic *)
 Theorem C35_rule_concurrency_limit : forall c id es kind clen c' evs,
-  (id mod 2 =? 1) = true -> find_live id (c_streams c) = None -> c_max c < id -> c_adv c <= c_cur c ->
+  (kind =? 7) = false -> (id mod 2 =? 1) = true -> find_live id (c_streams c) = None -> c_max c < id -> c_adv c <= c_cur c ->
   step_headers c id es kind clen = (c', evs) -> c_dead c' = true /\ evs = [(5, 0, 0)] /\ c_bug c' = c_bug c.
 Proof. exact rule_concurrency_limit. Qed.
 Print Assumptions C35_rule_concurrency_limit.
 (* HEADERS on a half-closed(remote) stream: stream error STREAM_CLOSED, connection continues *)
 Theorem C35_rule_headers_on_half_closed : forall c st es kind clen c' evs,
-  Good c -> c_bug c = false -> (s_id st mod 2 =? 1) = true ->
+  Good c -> c_bug c = false -> (kind =? 7) = false -> (s_id st mod 2 =? 1) = true ->
   find_live (s_id st) (c_streams c) = Some st -> s_state st = 2 ->
   step_headers c (s_id st) es kind clen = (c', evs) -> evs = [(2, s_id st, 5)] /\ c_dead c' = c_dead c.
 Proof. exact rule_headers_on_half_closed. Qed.
